@@ -826,7 +826,7 @@ theorem keyTexts_length (K : Consts) (env : Env) : ∀ (tys : List Ty) (ks : Lis
   | _ :: _, [], _, h => by simp [keyTexts] at h
   | ty :: tys, k :: ks, ts, h => by
     simp only [keyTexts] at h
-    cases h1 : ror2Text K env K.pathEsc ty k with
+    cases h1 : pathKeyText K env ty k with
     | none => simp [h1] at h
     | some t =>
       cases h2 : keyTexts K env tys ks with
